@@ -167,6 +167,7 @@ const (
 	platformIssuerID         = "platform"
 	tcbInfoPhrase            = "tcbInfo"
 	enclaveIdentityPhrase    = "enclaveIdentity"
+	signaturePhrase          = "signature"
 	certificateType          = "CERTIFICATE"
 	tcbInfoID                = "TDX"
 	qeIdentityID             = "TD_QE"
@@ -367,6 +368,19 @@ func bodyToRawMessage(name string, body []byte) ([]byte, error) {
 	return val, nil
 }
 
+// bodyToSignature returns the value of the "signature" member of the response, looked up by its exact name.
+func bodyToSignature(body []byte) (string, error) {
+	rawSignature, err := bodyToRawMessage(signaturePhrase, body)
+	if err != nil {
+		return "", err
+	}
+	var signature string
+	if err := json.Unmarshal(rawSignature, &signature); err != nil {
+		return "", fmt.Errorf("could not interpret %q as a string: %v", signaturePhrase, err)
+	}
+	return signature, nil
+}
+
 func getPckCrl(ca string, getter trust.HTTPSGetter, collateral *Collateral) error {
 	pckCrlURL := pcs.PckCrlURL(ca)
 	logger.V(2).Info("Getting PCK CRL: ", pckCrlURL)
@@ -422,6 +436,22 @@ func getTcbInfo(fmspc string, getter trust.HTTPSGetter, collateral *Collateral) 
 		}
 	}
 	collateral.TcbInfoBody = tcbInfoRawBody
+
+	// The values used must be exactly those of the member whose raw bytes are signature-checked:
+	// decoding the whole response matches member names loosely and lets a later (unsigned) member win.
+	var tcbInfo pcs.TcbInfo
+	if err := json.Unmarshal(tcbInfoRawBody, &tcbInfo); err != nil {
+		return &trust.AttestationRecreationErr{
+			Msg: fmt.Sprintf("unable to unmarshal tcbInfo: %v", err),
+		}
+	}
+	signature, err := bodyToSignature(body)
+	if err != nil {
+		return &trust.AttestationRecreationErr{
+			Msg: err.Error(),
+		}
+	}
+	collateral.TdxTcbInfo = pcs.TdxTcbInfo{TcbInfo: tcbInfo, Signature: signature}
 	return nil
 }
 
@@ -457,6 +487,21 @@ func getQeIdentity(getter trust.HTTPSGetter, collateral *Collateral) error {
 		}
 	}
 	collateral.EnclaveIdentityBody = qeIdentityRawBody
+
+	// See getTcbInfo: only the signature-checked member may supply the values.
+	var enclaveIdentity pcs.EnclaveIdentity
+	if err := json.Unmarshal(qeIdentityRawBody, &enclaveIdentity); err != nil {
+		return &trust.AttestationRecreationErr{
+			Msg: fmt.Sprintf("unable to unmarshal enclaveIdentity: %v", err),
+		}
+	}
+	signature, err := bodyToSignature(body)
+	if err != nil {
+		return &trust.AttestationRecreationErr{
+			Msg: err.Error(),
+		}
+	}
+	collateral.QeIdentity = pcs.QeIdentity{EnclaveIdentity: enclaveIdentity, Signature: signature}
 	return nil
 }
 
